@@ -351,7 +351,7 @@ func (w *World) Apply(focus waddrmgr.KeyScope, op Op) *Result {
 	case "import_priv":
 		key := ImportKey(op.N)
 		for _, im := range w.Imports {
-			if im.Kind == "privkey" && im.Scope == focus && im.Priv.Key.Equals(&key.Key) {
+			if (im.Kind == "privkey" || im.Kind == "pubkey") && im.Scope == focus && im.Pub.IsEqual(key.PubKey()) {
 				res.Skipped = true // duplicate import
 				return res
 			}
